@@ -12,6 +12,7 @@ CONSTANTS
   ReqMethods = {}
   ReqHosts = {}
   ReqPaths = {}
+  ReqOrigins = {}
   Dev = {}
 INIT TrInit
 NEXT TrNext
